@@ -14,6 +14,7 @@ import (
 	"errors"
 	"fmt"
 	"net/http"
+	"net/http/httptest"
 	"net/url"
 	"reflect"
 	"sort"
@@ -25,6 +26,8 @@ import (
 	authenticationv1 "k8s.io/api/authentication/v1"
 	authorizationv1 "k8s.io/api/authorization/v1"
 	metav1 "k8s.io/apimachinery/pkg/apis/meta/v1"
+	"k8s.io/apimachinery/pkg/runtime"
+	"k8s.io/apimachinery/pkg/runtime/serializer"
 	"k8s.io/apiserver/pkg/authentication/authenticator"
 	"k8s.io/apiserver/pkg/authentication/user"
 	"k8s.io/apiserver/pkg/authorization/authorizer"
@@ -38,6 +41,7 @@ import (
 	sarwebhook "github.com/kubewharf/kubegateway/pkg/gateway/authorization/webhook"
 
 	"github.com/kubewharf/kubegateway/pkg/clusters"
+	"github.com/kubewharf/kubegateway/pkg/gateway/endpoints/filters"
 	"github.com/kubewharf/kubegateway/pkg/gateway/endpoints/request"
 
 	"verifharness/rig"
@@ -112,6 +116,9 @@ type world struct {
 	segStart     time.Time
 	stalled      bool // a stretch between two sleeps took longer than half the short TTL
 	dropTimeouts int
+
+	terminated    int      // bound requests ended by WithUpstreamInfo (host not proxied)
+	chainProblems []string // anomalies outside the authenticator / authorizer
 }
 
 // provider is the ClientProvider handed to the authenticator / authorizer: the real manager's ClientFor, wrapped
@@ -497,12 +504,16 @@ func (w *world) resolve(host string) (own int, ready bool) {
 	return own, ready
 }
 
-// beginReq: one logical tick, and the real clock has visibly advanced since the previous request
-func (w *world) beginReq(kind string, m *Macro) *reqRec {
+// tick: one logical tick per request, and the real clock has visibly advanced since the previous request
+func (w *world) tick() {
 	w.clock++
 	t0 := time.Now()
 	for !time.Now().After(t0) {
 	}
+}
+
+// beginReq: the authenticator / authorizer is about to be called; request ids are handed out in this order
+func (w *world) beginReq(kind string, m *Macro) *reqRec {
 	r := &reqRec{rid: w.nextRid, kind: kind, m: m}
 	w.nextRid++
 	w.stack = append(w.stack, r)
@@ -510,6 +521,52 @@ func (w *world) beginReq(kind string, m *Macro) *reqRec {
 }
 
 func (w *world) endReq() { w.stack = w.stack[:len(w.stack)-1] }
+
+var codecs = serializer.NewCodecFactory(runtime.NewScheme())
+
+// through: the request on its way to the authenticator / authorizer. Unbound: the context NewExtraRequestInfo
+// builds. Bound: the REAL WithExtraRequestInfo and WithUpstreamInfo filters (info.UpstreamCluster = manager.Get(host),
+// 503 when the host is not proxied), then the events scheduled before the next filter resolves the host again.
+// `next` is not called when the chain ends the request.
+func (w *world) through(m *Macro, next func(ctx context.Context, hostname string, upstream int)) (reached bool, problem string) {
+	hostport := rig.UnHex(m.Host)
+	if !m.Bound {
+		ctx, host, err := requestCtx(hostport)
+		if err != nil {
+			return false, "NewExtraRequestInfo failed: " + err.Error()
+		}
+		next(ctx, host, -1)
+		return true, ""
+	}
+	var h http.Handler = http.HandlerFunc(func(_ http.ResponseWriter, req *http.Request) {
+		reached = true
+		info, _ := request.ExtraRequestInfoFrom(req.Context())
+		up := -1
+		if info != nil && info.UpstreamCluster != nil {
+			up = -3
+			if id, ok := w.byPtr[info.UpstreamCluster]; ok {
+				up = id
+			}
+		}
+		w.runMacros(m.Mid0)
+		hostname := ""
+		if info != nil {
+			hostname = info.Hostname
+		}
+		next(req.Context(), hostname, up)
+	})
+	h = filters.WithUpstreamInfo(h, w.mgr, codecs)
+	h = filters.WithExtraRequestInfo(h, infoFactory, codecs)
+	req := httptest.NewRequest("GET", "/api", nil)
+	req.Host = hostport
+	req = req.WithContext(apirequest.WithRequestInfo(req.Context(), &apirequest.RequestInfo{}))
+	rec := httptest.NewRecorder()
+	msg, panicked := rig.Recover(func() { h.ServeHTTP(rec, req) })
+	if panicked {
+		return reached, "panic in the filter chain: " + msg
+	}
+	return reached, ""
+}
 
 func errKind(err error) string {
 	switch {
@@ -545,41 +602,47 @@ func requestCtx(hostport string) (context.Context, string, error) {
 
 func (w *world) doTok(m *Macro) {
 	tok := rig.UnHex(m.Tok)
-	r := w.beginReq("tok", m)
-	ctx, host, cerr := requestCtx(rig.UnHex(m.Host))
-	if cerr != nil {
+	reached, problem := w.through(m, func(ctx context.Context, host string, upstream int) {
+		w.tick()
+		own, ownReady := w.resolve(host)
+		r := w.beginReq("tok", m)
+		var resp *authenticator.Response
+		var ok bool
+		var err error
+		msg, panicked := rig.Recover(func() { resp, ok, err = w.authn.AuthenticateToken(ctx, tok) })
 		w.endReq()
-		w.outs = append(w.outs, ImplOut{Kind: "tok", Rid: r.rid, Host: m.Host, Tok: m.Tok, Own: -1, Time: w.clock,
-			Res: TokRes{K: "err", E: "other:" + cerr.Error()}, Problem: "NewExtraRequestInfo failed: " + cerr.Error()})
-		return
-	}
-	own, ownReady := w.resolve(host)
-	var resp *authenticator.Response
-	var ok bool
-	var err error
-	msg, panicked := rig.Recover(func() { resp, ok, err = w.authn.AuthenticateToken(ctx, tok) })
-	w.endReq()
-	out := ImplOut{Kind: "tok", Rid: r.rid, Host: m.Host, Tok: m.Tok, Own: own, OwnReady: ownReady, Time: w.clock,
-		Reviewed: len(r.hits) > 0, Hits: r.hits, Problem: r.problem}
-	switch {
-	case panicked:
-		out.Problem = "panic: " + msg
-		out.Res = TokRes{K: "err", E: "panic"}
-	case err != nil:
-		out.Res = TokRes{K: "err", E: errKind(err)}
-		if ok {
-			out.Problem = "ok=true together with an error"
+		out := ImplOut{Kind: "tok", Rid: r.rid, Host: m.Host, Tok: m.Tok, Own: own, OwnReady: ownReady, Upstream: upstream,
+			Time: w.clock, Reviewed: len(r.hits) > 0, Hits: r.hits, Problem: r.problem}
+		switch {
+		case panicked:
+			out.Problem = "panic: " + msg
+			out.Res = TokRes{K: "err", E: "panic"}
+		case err != nil:
+			out.Res = TokRes{K: "err", E: errKind(err)}
+			if ok {
+				out.Problem = "ok=true together with an error"
+			}
+		case ok:
+			name := ""
+			if resp != nil && resp.User != nil {
+				name = resp.User.GetName()
+			}
+			out.Res = TokRes{K: "auth", User: rig.Hex(name)}
+		default:
+			out.Res = TokRes{K: "unauth"}
 		}
-	case ok:
-		name := ""
-		if resp != nil && resp.User != nil {
-			name = resp.User.GetName()
-		}
-		out.Res = TokRes{K: "auth", User: rig.Hex(name)}
-	default:
-		out.Res = TokRes{K: "unauth"}
+		w.outs = append(w.outs, out)
+	})
+	w.afterChain(reached, problem)
+}
+
+func (w *world) afterChain(reached bool, problem string) {
+	if problem != "" {
+		w.chainProblems = append(w.chainProblems, problem)
 	}
-	w.outs = append(w.outs, out)
+	if !reached && problem == "" {
+		w.terminated++
+	}
 }
 
 func attrsRecord(a *Attrs) authorizer.AttributesRecord {
@@ -642,37 +705,31 @@ func decisionName(d authorizer.Decision) string {
 }
 
 func (w *world) doSar(m *Macro) {
-	r := w.beginReq("sar", m)
-	ctx, host, cerr := requestCtx(rig.UnHex(m.Host))
-	if cerr != nil {
-		w.endReq()
-		w.outs = append(w.outs, ImplOut{Kind: "sar", Rid: r.rid, Host: m.Host, Attrs: m.Attrs, Own: -1, Time: w.clock,
-			Res: SarRes{D: "deny", E: "other:" + cerr.Error()}, Problem: "NewExtraRequestInfo failed: " + cerr.Error()})
-		return
-	}
-	own, ownReady := w.resolve(host)
-	out := ImplOut{Kind: "sar", Rid: r.rid, Host: m.Host, Attrs: m.Attrs, Own: own, OwnReady: ownReady}
 	if m.Attrs < 0 || m.Attrs >= len(w.cs.Attrs) {
-		w.endReq()
-		out.Problem = "attrs index out of range"
-		out.Res = SarRes{D: "deny", E: "bad-case"}
-		w.outs = append(w.outs, out)
+		w.chainProblems = append(w.chainProblems, "attrs index out of range")
 		return
 	}
 	rec := attrsRecord(&w.cs.Attrs[m.Attrs])
-	var d authorizer.Decision
-	var reason string
-	var err error
-	msg, panicked := rig.Recover(func() { d, reason, err = w.authz.Authorize(ctx, rec) })
-	w.endReq()
-	out.Time, out.Reviewed, out.Hits, out.Problem = w.clock, len(r.hits) > 0, r.hits, r.problem
-	if panicked {
-		out.Problem = "panic: " + msg
-		out.Res = SarRes{D: "deny", E: "panic"}
-	} else {
-		out.Res = SarRes{D: decisionName(d), Reason: rig.Hex(reason), E: errKind(err)}
-	}
-	w.outs = append(w.outs, out)
+	reached, problem := w.through(m, func(ctx context.Context, host string, upstream int) {
+		w.tick()
+		own, ownReady := w.resolve(host)
+		r := w.beginReq("sar", m)
+		var d authorizer.Decision
+		var reason string
+		var err error
+		msg, panicked := rig.Recover(func() { d, reason, err = w.authz.Authorize(ctx, rec) })
+		w.endReq()
+		out := ImplOut{Kind: "sar", Rid: r.rid, Host: m.Host, Attrs: m.Attrs, Own: own, OwnReady: ownReady, Upstream: upstream,
+			Time: w.clock, Reviewed: len(r.hits) > 0, Hits: r.hits, Problem: r.problem}
+		if panicked {
+			out.Problem = "panic: " + msg
+			out.Res = SarRes{D: "deny", E: "panic"}
+		} else {
+			out.Res = SarRes{D: decisionName(d), Reason: rig.Hex(reason), E: errKind(err)}
+		}
+		w.outs = append(w.outs, out)
+	})
+	w.afterChain(reached, problem)
 }
 
 func (w *world) runMacros(ms []Macro) {
@@ -699,6 +756,8 @@ type realResult struct {
 	Stalled      bool
 	DropTimeouts int
 	Hang         bool
+	Terminated   int
+	Problems     []string
 }
 
 // runReal executes the case on the real code (with a watchdog: a case that blocks is reported, not waited for).
@@ -709,7 +768,7 @@ func runReal(cs *Case) realResult {
 		defer w.close()
 		w.runMacros(cs.Ops)
 		w.segCheck()
-		res := realResult{Outs: w.outs, Stalled: w.stalled, DropTimeouts: w.dropTimeouts}
+		res := realResult{Outs: w.outs, Stalled: w.stalled, DropTimeouts: w.dropTimeouts, Terminated: w.terminated, Problems: w.chainProblems}
 		tk, ok1 := w.cacheKeys(w.authn)
 		sk, ok2 := w.cacheKeys(w.authz)
 		res.TokKeys, res.SarKeys, res.KeysOK = tk, sk, ok1 && ok2
